@@ -92,7 +92,11 @@ theorem C16_select_then_write_counterexample :
 /-- obligations on the regenerated constants the model hard-codes, and on the shape of
     `response.WriteStream` -/
 theorem C16_gen : Gen.RequestFlag = 128 ∧ Gen.InvalidStreamID = invalidStream ∧ Gen.Mbit = 64 ∧
-    Gen.responseWriteStreamExits = ["return msc.WriteStream(b,stream)", "return w.Write(b)"] := by decide
+    Gen.responseWriteStreamExits = ["return msc.WriteStream(b,stream)", "return w.Write(b)"] ∧
+    -- an answer inherits its request's stream, and WriteTo / WriteToWithRetry write to the message's
+    -- own stream - not to whatever stream is pinned on the connection (`Msg.answer`, `Msg.writeStream`)
+    Gen.writeStreamArgs = ["WriteTo:WriteToStream:m.stream", "WriteToWithRetry:WriteToStreamWithRetry:m.stream",
+      "WriteToStream:WriteToStreamWithRetry:stream", "Answer:stream:m.stream"] := by decide
 
 /-- non-vacuity: a request with both identifiers zero, P bit set, on stream 3 -/
 example :
